@@ -57,5 +57,13 @@ def run_contract(ctx):
                     exhaustive_name="contraction programs source -> {mm, matmul, bmm, linear, ...} for 9 quantized source kinds (per-tensor / first axis / last axis x 3 qtypes) x ranks 2, 3 x square / non-square x 36 partner kinds x 2 output widths x 4 call variants")
 
 
+def run_pairs(ctx):
+    from vlib.core import enumerate_cases
+
+    cases = qprog.pair_cases()
+    enumerate_cases(ctx, cases[ctx.shard :: ctx.nshards], exec_program,
+                    exhaustive_name="pair programs source -> binary operation: 12 quantized source kinds x 16 operations x 36 companion modes x 6 argument variants")
+
+
 SUBCHECKS = {"program": {"run": run, "execute": exec_program}, "alias": {"run": run_alias, "execute": exec_program},
-             "contract": {"run": run_contract, "execute": exec_program}}
+             "contract": {"run": run_contract, "execute": exec_program}, "pairs": {"run": run_pairs, "execute": exec_program}}
